@@ -212,3 +212,76 @@ OBLIGATIONS.append(Ob('history_tainted_then_plain', ob_history_tainted_then_plai
                       data='-', selectors='value = 3 characters each selected from %r; number of earlier renderings with a tainted value 0..2; eight quoting forms (full-path html_quote with null / '
                       'missing / size / spacify / upper, fmt=html-quote, entity, simple form) and two EPFS forms on ONE fresh template object' % HALPHA,
                       stubs='template compiled and rendered untraced once the selectors are fixed on the path'))
+
+
+# ---------------------------------------------------------------- wave 4
+T_STRAY = {
+    'dash': cooked('R&dtml-D dept: &dtml-x;|<dtml-var x html_quote>;'),
+    'dot': cooked('see &dtml.foo bar &dtml-x; and &dtml.url_quote-y;'),
+    'unfinished': cooked('&dtml-unfinished <b>&dtml-x;</b>'),
+    'query': cooked('<a href="show?id=1&dtml-lang=&dtml-x;;k">'),
+}
+
+
+def ob_entity_after_stray_prefix(s: str) -> bool:
+    """an entity reference is recognised (and its value escaped) wherever it stands - also after text that merely looks like the
+    beginning of another entity"""
+    e = ref_escape(s)
+    return (T_STRAY['dash'](x=s) == 'R&dtml-D dept: ' + e + '|' + e + ';'
+            and T_STRAY['dot'](x=s, y='Y') == 'see &dtml.foo bar ' + e + ' and Y'
+            and T_STRAY['unfinished'](x=s) == '&dtml-unfinished <b>' + e + '</b>'
+            and T_STRAY['query'](x=s) == '<a href="show?id=1&dtml-lang=' + e + ';k">')
+
+
+OBLIGATIONS.append(Ob('entity_after_stray_prefix', ob_entity_after_stray_prefix, ['len(s) <= 2'], timeout=tier(200, 600), data='s: str len <= 2',
+                      selectors='&dtml-x; preceded by literal text that looks like an entity opener (&dtml-D dept, &dtml.foo bar, &dtml-lang=)'))
+
+
+class Mut:
+    def __init__(self, t):
+        self.t = t
+
+    def __str__(self):
+        return self.t
+
+    def __eq__(self, other):
+        return isinstance(other, Mut)
+
+    def __hash__(self):
+        return 1
+
+
+SRC_EQ = '<dtml-var x fmt=html-quote>|%s|<dtml-var x html_quote null="">|<dtml-var x html_quote>|&dtml-x;'
+EQ_GROUPS = [[1, 1.0, True], [0, 0.0, False], [(1, '<'), (1.0, '<')], ['a&', 'a&']]
+
+
+def ob_history_equal_values(g: int, i: int, j: int, k: int) -> bool:
+    """values that compare EQUAL but print differently (1 / 1.0 / True, a mutable object whose text changed) rendered one after the other
+    on ONE template object: every quoting form shows the current value's own escaped text"""
+    gi = 0 if g <= 0 else 1 if g == 1 else 2 if g == 2 else 3 if g == 3 else 4
+    i, j, k = [0 if q <= 0 else 1 if q == 1 else 2 for q in (i, j, k)]
+    with NoTracing():
+        t = HTML(SRC_EQ % '<dtml-var x fmt=html-quote size=99>')
+        ts = String('%(x fmt=html-quote)s|%(x html_quote)s')
+        t.cook()
+        ts.cook()
+        if gi == 4:
+            m = Mut('first<')
+            seq = [m, m, m]
+            texts = ['first<', 'second&', "third'"]
+        else:
+            grp = EQ_GROUPS[gi]
+            seq = [grp[i % len(grp)], grp[j % len(grp)], grp[k % len(grp)]]
+            texts = None
+        for n, v in enumerate(seq):
+            if texts:
+                v.t = texts[n]
+            e = ref_escape(str(v))
+            if t(x=v) != '|'.join([e] * 5) or ts(x=v) != e + '|' + e:
+                return False
+        return True
+
+
+OBLIGATIONS.append(Ob('history_equal_values', ob_history_equal_values, ['0 <= g <= 4', '0 <= i < 3', '0 <= j < 3', '0 <= k < 3'], timeout=tier(200, 600), path_timeout=60,
+                      data='-', selectors='three renderings of one template object with values picked from a group of equal-comparing values %r or one mutable object whose text changes; seven quoting forms' % EQ_GROUPS,
+                      stubs='runs untraced once the selectors are fixed on the path'))
